@@ -11,7 +11,7 @@ RULE = ("encoded-window probes: rasters with <= 24 cells holding distinct powers
         "focal_stats (7 statistics, subsets/orders), mean (passes 0..3, excludes lists), convolution_2d (weighted kernels, NaN "
         "cells), hotspots (0/1 and weighted kernels) on rasters up to 12x12 in int/float dtypes; non-trivial = distinct (function, "
         "kernel, data hash) with an asymmetric or non-square kernel or a NaN cell under the window")
-BUDGET = {'quick': 120, 'thorough': 700}
+BUDGET = {'quick': 240, 'thorough': 700}
 MODES = {'quick': [('J', 12), ('I', 4)], 'thorough': [('J', 12), ('I', 4)]}
 FLOORS = {'quick': {'apply.window_set': 944, 'apply.window_positions': 800, 'kernel.asymmetric': 751, 'kernel.nonsquare': 300,
                     'focal_stats': 80, 'mean': 150, 'convolution': 150, 'hotspots.codes': 80, 'hotspots.negation': 80,
